@@ -128,11 +128,136 @@ def _cm_spec(cdef):
         return me, stmts, ret
     en = straight(meths['__enter__'], 1)
     ex = straight(meths['__exit__'], 4)
+    normal_only = False
+    if ex is None:
+        # __exit__ of the shape  if <exc_type> is None: <statements> ; [return False]  - undone on a normal exit only
+        fn = meths['__exit__']
+        seq = [st for st in fn.body if not (isinstance(st, ast.Expr) and isinstance(st.value, ast.Constant))]
+        if len(fn.args.args) == 4 and seq and isinstance(seq[0], ast.If) and not seq[0].orelse and isinstance(seq[0].test, ast.Compare) and \
+                len(seq[0].test.ops) == 1 and isinstance(seq[0].test.ops[0], ast.Is) and isinstance(seq[0].test.left, ast.Name) and \
+                seq[0].test.left.id == fn.args.args[1].arg and isinstance(seq[0].test.comparators[0], ast.Constant) and \
+                seq[0].test.comparators[0].value is None and \
+                all(isinstance(st, ast.Return) and (st.value is None or (isinstance(st.value, ast.Constant) and not st.value.value)) for st in seq[1:]):
+            inner = ast.FunctionDef(name='__exit__', args=fn.args, body=seq[0].body, decorator_list=[], returns=None)
+            for x in ast.walk(inner):
+                for c in ast.iter_child_nodes(x):
+                    c._parent = x
+            ex = straight(inner, 4)
+            normal_only = ex is not None
     if en is None or ex is None:
         return None
     if ex[2] is not None and not (isinstance(ex[2], ast.Constant) and not ex[2].value):
         return None             # may swallow the exception: not a try/finally
-    return dict(fields=fields, nparams=nparams, enter=en, exit=ex)
+    return dict(fields=fields, nparams=nparams, enter=en, exit=ex, normal_only=normal_only)
+
+
+def _cm_through_fields_and_factories(tree, specs):
+    """``with self.F:`` where the field is bound once, in the constructor, to ``K(args)``, and ``with self.m():`` where the
+    method only builds and returns a ``K`` - K a plain context-manager class (see _cm_spec) - are rewritten to
+    ``with K(args):``; the binding / the factory method is removed when nothing else mentions it"""
+    for Y in [c for c in tree.body if isinstance(c, ast.ClassDef) and c.name not in specs]:
+        meths = [m for m in Y.body if isinstance(m, ast.FunctionDef)]
+        # (a) fields
+        init = next((m for m in meths if m.name == '__init__'), None)
+        cand = {}
+        if init is not None and init.args.args:
+            me = init.args.args[0].arg
+            for st in init.body:
+                if isinstance(st, ast.Assign) and len(st.targets) == 1 and isinstance(st.targets[0], ast.Attribute) and \
+                        isinstance(st.targets[0].value, ast.Name) and st.targets[0].value.id == me and isinstance(st.value, ast.Call) and \
+                        isinstance(st.value.func, ast.Name) and st.value.func.id in specs and not st.value.keywords and \
+                        all(isinstance(a, ast.Name) and a.id == me for a in st.value.args):
+                    cand[st.targets[0].attr] = (st, st.value)
+        for F, (asg, call) in list(cand.items()):
+            uses = [n for n in ast.walk(tree) if isinstance(n, ast.Attribute) and n.attr == F and n is not asg.targets[0]]
+            ok = bool(uses)
+            for u in uses:
+                par = getattr(u, '_parent', None)
+                fn = u
+                while fn is not None and not isinstance(fn, ast.FunctionDef):
+                    fn = getattr(fn, '_parent', None)
+                if not (isinstance(par, ast.withitem) and par.context_expr is u and par.optional_vars is None and fn in meths and
+                        isinstance(u.value, ast.Name) and fn.args.args and u.value.id == fn.args.args[0].arg and isinstance(u.ctx, ast.Load)):
+                    ok = False
+            if not ok:
+                continue
+            for u in uses:
+                fn = u
+                while not isinstance(fn, ast.FunctionDef):
+                    fn = fn._parent
+                new = ast.Call(func=ast.Name(id=call.func.id, ctx=ast.Load()),
+                               args=[ast.Name(id=fn.args.args[0].arg, ctx=ast.Load()) for _ in call.args], keywords=[])
+                ast.copy_location(new, u)
+                ast.fix_missing_locations(new)
+                u._parent.context_expr = new
+            init.body = [st for st in init.body if st is not asg] or [ast.Pass()]
+        # (b) factory methods
+        for m in list(meths):
+            if not m.args.args or len(m.args.args) != 1 or m.decorator_list:
+                continue
+            me = m.args.args[0].arg
+            body = [st for st in m.body if not (isinstance(st, ast.Expr) and isinstance(st.value, ast.Constant))]
+            kname, args = None, None
+            if len(body) == 1 and isinstance(body[0], ast.Return) and isinstance(body[0].value, ast.Call) and isinstance(body[0].value.func, ast.Name) and \
+                    body[0].value.func.id in specs and not body[0].value.keywords and all(isinstance(a, ast.Name) and a.id == me for a in body[0].value.args):
+                kname, args = body[0].value.func.id, len(body[0].value.args)
+            elif len(body) >= 2 and isinstance(body[0], ast.Assign) and len(body[0].targets) == 1 and isinstance(body[0].targets[0], ast.Name) and \
+                    isinstance(body[0].value, ast.Call) and isinstance(body[0].value.func, ast.Name) and body[0].value.func.id in specs and \
+                    not body[0].value.args and isinstance(body[-1], ast.Return) and isinstance(body[-1].value, ast.Name) and \
+                    body[-1].value.id == body[0].targets[0].id and not specs[body[0].value.func.id]['fields']:
+                # x = K(); x.f = self; ..; return x   for a K without constructor: the assigned fields play the role of parameters
+                x = body[0].targets[0].id
+                sets = body[1:-1]
+                if all(isinstance(st, ast.Assign) and len(st.targets) == 1 and isinstance(st.targets[0], ast.Attribute) and
+                       isinstance(st.targets[0].value, ast.Name) and st.targets[0].value.id == x and isinstance(st.value, ast.Name) and st.value.id == me
+                       for st in sets) and sets:
+                    kname = body[0].value.func.id
+                    sp = specs[kname]
+                    sp['fields'] = {st.targets[0].attr: i for i, st in enumerate(sets)}
+                    sp['nparams'] = len(sets)
+                    # the enter/exit parts were read when no field was known: read them again
+                    kdef = next(c for c in tree.body if isinstance(c, ast.ClassDef) and c.name == kname)
+                    fake_init = ast.FunctionDef(name='__init__', args=ast.arguments(posonlyargs=[], args=[ast.arg(arg='self')] + [ast.arg(arg='p%d' % i) for i in range(len(sets))],
+                                                                                 vararg=None, kwonlyargs=[], kw_defaults=[], kwarg=None, defaults=[]),
+                                                body=[ast.Assign(targets=[ast.Attribute(value=ast.Name(id='self', ctx=ast.Load()), attr=st.targets[0].attr, ctx=ast.Store())],
+                                                                 value=ast.Name(id='p%d' % i, ctx=ast.Load())) for i, st in enumerate(sets)],
+                                                decorator_list=[], returns=None)
+                    ast.copy_location(fake_init, kdef)
+                    ast.fix_missing_locations(fake_init)
+                    kdef.body = [st for st in kdef.body if not (isinstance(st, ast.Assign) and any(isinstance(t, ast.Name) and t.id == '__slots__' for t in st.targets))]
+                    kdef.body.insert(0, fake_init)
+                    set_parents(tree)
+                    sp2 = _cm_spec(kdef)
+                    if sp2 is None:
+                        kname = None
+                    else:
+                        specs[kname] = sp2
+                        args = len(sets)
+            if kname is None:
+                continue
+            uses = [n for n in ast.walk(tree) if isinstance(n, ast.Attribute) and n.attr == m.name]
+            ok = bool(uses)
+            for u in uses:
+                call = getattr(u, '_parent', None)
+                item = getattr(call, '_parent', None)
+                fn = u
+                while fn is not None and not isinstance(fn, ast.FunctionDef):
+                    fn = getattr(fn, '_parent', None)
+                if not (isinstance(call, ast.Call) and call.func is u and not call.args and not call.keywords and isinstance(item, ast.withitem) and
+                        item.context_expr is call and item.optional_vars is None and fn in meths and isinstance(u.value, ast.Name) and
+                        fn.args.args and u.value.id == fn.args.args[0].arg):
+                    ok = False
+            if not ok:
+                continue
+            for u in uses:
+                fn = u
+                while not isinstance(fn, ast.FunctionDef):
+                    fn = fn._parent
+                new = ast.Call(func=ast.Name(id=kname, ctx=ast.Load()), args=[ast.Name(id=fn.args.args[0].arg, ctx=ast.Load()) for _ in range(args)], keywords=[])
+                ast.copy_location(new, u)
+                ast.fix_missing_locations(new)
+                u._parent._parent.context_expr = new
+            Y.body = [st for st in Y.body if st is not m]
 
 
 def expand_context_manager_classes(tree):
@@ -141,6 +266,46 @@ def expand_context_manager_classes(tree):
     provided every mention of C is such a with-item.  -> names of the expanded classes"""
     import copy
     specs = {}
+    # a context-manager class without constructor whose fields are set by the one method that creates it
+    # (x = K(); x.f = self; return x) is given the constructor K(f) and the method becomes ``return K(self)``
+    for K in [c for c in tree.body if isinstance(c, ast.ClassDef)]:
+        names = {m.name for m in K.body if isinstance(m, ast.FunctionDef)}
+        if not ({'__enter__', '__exit__'} <= names) or '__init__' in names:
+            continue
+        makers = []
+        for Y in [c for c in tree.body if isinstance(c, ast.ClassDef) and c is not K]:
+            for m in [x for x in Y.body if isinstance(x, ast.FunctionDef)]:
+                body = [st for st in m.body if not (isinstance(st, ast.Expr) and isinstance(st.value, ast.Constant))]
+                if len(body) >= 3 and isinstance(body[0], ast.Assign) and len(body[0].targets) == 1 and isinstance(body[0].targets[0], ast.Name) and \
+                        isinstance(body[0].value, ast.Call) and isinstance(body[0].value.func, ast.Name) and body[0].value.func.id == K.name and \
+                        not body[0].value.args and not body[0].value.keywords and isinstance(body[-1], ast.Return) and \
+                        isinstance(body[-1].value, ast.Name) and body[-1].value.id == body[0].targets[0].id:
+                    x = body[0].targets[0].id
+                    sets = body[1:-1]
+                    if all(isinstance(st, ast.Assign) and len(st.targets) == 1 and isinstance(st.targets[0], ast.Attribute) and
+                           isinstance(st.targets[0].value, ast.Name) and st.targets[0].value.id == x and _simple_expr(st.value) for st in sets):
+                        makers.append((m, sets))
+        mentions = [n for n in ast.walk(tree) if isinstance(n, ast.Name) and n.id == K.name]
+        if len(makers) != 1 or len(mentions) != 1:
+            continue
+        m, sets = makers[0]
+        fnames = [st.targets[0].attr for st in sets]
+        init = ast.FunctionDef(name='__init__', args=ast.arguments(posonlyargs=[], args=[ast.arg(arg='self')] + [ast.arg(arg='p_' + f) for f in fnames],
+                                                                 vararg=None, kwonlyargs=[], kw_defaults=[], kwarg=None, defaults=[]),
+                               body=[ast.Assign(targets=[ast.Attribute(value=ast.Name(id='self', ctx=ast.Load()), attr=f, ctx=ast.Store())],
+                                                value=ast.Name(id='p_' + f, ctx=ast.Load())) for f in fnames],
+                               decorator_list=[], returns=None)
+        if hasattr(ast, 'TypeVar'):
+            init.type_params = []
+        ast.copy_location(init, K)
+        ast.fix_missing_locations(init)
+        K.body = [st for st in K.body if not (isinstance(st, ast.Assign) and any(isinstance(t, ast.Name) and t.id == '__slots__' for t in st.targets))]
+        K.body.insert(0, init)
+        ret = ast.Return(value=ast.Call(func=ast.Name(id=K.name, ctx=ast.Load()), args=[_clone(st.value) for st in sets], keywords=[]))
+        ast.copy_location(ret, m.body[-1])
+        ast.fix_missing_locations(ret)
+        m.body = [ret]
+        set_parents(tree)
     for st in tree.body:
         if isinstance(st, ast.ClassDef) and any(isinstance(m, ast.FunctionDef) and m.name == '__enter__' for m in st.body):
             sp = _cm_spec(st)
@@ -148,6 +313,8 @@ def expand_context_manager_classes(tree):
                 specs[st.name] = sp
     if not specs:
         return []
+    _cm_through_fields_and_factories(tree, specs)
+    set_parents(tree)
     for n in ast.walk(tree):
         if isinstance(n, ast.Name) and n.id in specs:
             p = getattr(n, '_parent', None)
@@ -196,8 +363,14 @@ def expand_context_manager_classes(tree):
                     if item.optional_vars is not None:
                         val = res if res is not None else ast.Constant(value=None)
                         pre.append(ast.Assign(targets=[item.optional_vars], value=val))
-                    tr = ast.Try(body=body, handlers=[], orelse=[], finalbody=post or [ast.Pass()])
-                    body = pre + [tr]
+                    if sp.get('normal_only'):
+                        if _body_jumps(body):
+                            body = [ast.With(items=[item], body=body)]      # left by return/break/continue: not expanded
+                            continue
+                        body = pre + body + post
+                    else:
+                        tr = ast.Try(body=body, handlers=[], orelse=[], finalbody=post or [ast.Pass()])
+                        body = pre + [tr]
                     changed = True
                 else:
                     body = [ast.With(items=[item], body=body)]
